@@ -17,6 +17,13 @@ NA = {
 
 # property -> check description; filled in as units are built
 CHECKS = {
+    "C17": {
+        "category": "proof",
+        "technique": "Verus per-call ring contracts (all u32 counter values, wrap included) on the verbatim bodies + protocol lemmas over the contracts; Kani loop-free twins on the compiled crate via the verif-hooks constructor",
+        "text": "For every u32 value of the free-running head/tail counters (no small-counter precondition) and every power-of-two ring size, Verus proves on the real bodies: get_next_sqe_slot hands out slot (tail & mask) << shift iff fewer than `entries` submissions are outstanding and advances tail by one (wrapping); flush publishes tail and returns the outstanding count; get_next_cqe returns entry (khead & mask) << shift iff ktail != khead and advances the head by one; ring invariant preserved, every other field unchanged, no arithmetic overflow. Protocol lemmas derive no-reuse-before-consume, distinct indices of outstanding entries and exactly-once in-order reaping from those contracts. Kani proves the same per-call contracts bit-precisely on the compiled crate (loop-free, ring sizes 1..8, SQE128/CQE32/SQPOLL).",
+        "note": "Trusted: atomic accessors as ghost-word stand-ins (memory ordering not modelled); restated queue structs; rely on the kernel side stated as the ring invariant; SQ index array identity (C18).",
+        "design_ref": "§4.C17",
+    },
     "C10": {
         "category": "proof",
         "technique": "Verus contracts (nul_once postconditions, panic-freedom obligations) on mechanically extracted constructors/path ops + bounded Kani twins on the compiled crate",
@@ -76,7 +83,7 @@ def main():
         "hooks": {
             "guard": "verif-hooks",
             "enable": "cargo feature `verif-hooks` on rusl / tiny-std (harness crates under kani_ws enable it; off by default)",
-            "baseline_off_cmd": "cd /repo && cargo test --workspace --no-fail-fast --offline",
+            "baseline_off_cmd": "cd /repo && cargo test --workspace --no-fail-fast --offline -- --test-threads=1",
             "source_commits": HOOK_COMMITS,
             "add_only": True,
         },
@@ -96,7 +103,7 @@ def main():
     print("MANIFEST.json: %d checks, %d not_applicable" % (len(checks), len(na)))
 
 
-HOOK_COMMITS = []
+HOOK_COMMITS = ["c98543c"]
 
 if __name__ == "__main__":
     main()
